@@ -232,6 +232,15 @@ fn json_part(cx: &mut Cx, victim: NodeId, h: Arc<Honest>, ai: usize, kind: usize
                     (format!("utf8_{n}"), format!("\"{}\"", "\u{e9}".repeat(n / 2))),
                     (format!("upperhex{n}"), format!("\"{}\"", "AB".repeat(n / 2))),
                 ]).collect();
+                // the externally tagged enums: every variant name the generic types declare, with
+                // the honest payload and with null
+                let payload = text.find(':').map(|p| text[p + 1..text.len() - 1].to_string()).unwrap_or_default();
+                for variant in ["BBSplus", "CL03", "_Unreachable", "Unknown", ""] {
+                    frames.push((format!("variant:{variant}:null"), format!("{{\"{variant}\":null}}")));
+                    frames.push((format!("variant:{variant}:payload"), format!("{{\"{variant}\":{payload}}}")));
+                    frames.push((format!("variant:{variant}:[]"), format!("{{\"{variant}\":[]}}")));
+                }
+                frames.push(("variant:bare-string".into(), "\"_Unreachable\"".into()));
                 let fixed: Vec<(String, String)> = [("null", "null"), ("int", "7"), ("neg", "-1"), ("float", "1e400"), ("emptystr", "\"\""), ("nonhex", "\"zz\""), ("oddhex", "\"abc\""), ("arr", "[]"), ("obj", "{}"), ("bool", "true"), ("deep", "[[[[[[[[[[[[[[[[[[[[[[[[[[[[[[[[]]]]]]]]]]]]]]]]]]]]]]]]]]]]]]]]")].iter().map(|(a, b)| (a.to_string(), b.to_string())).collect();
                 for (k, rep) in fixed.iter().chain(odd_strings.iter()).map(|(a, b)| (a.as_str(), b.as_str())) {
                     let mut start = 0;
@@ -264,7 +273,9 @@ fn json_part(cx: &mut Cx, victim: NodeId, h: Arc<Honest>, ai: usize, kind: usize
             let opts = StepOpts { tick_budget: budget_for(measure), ..Default::default() };
             let entry = format!("serde_json::{}", art.name());
             let fr2 = fr.clone();
-            cx.step(victim, "json_decode", opts, move || api::from_json(suite, art, &fr2).is_ok(), move |cx, st| {
+            let h3 = h.clone();
+            // decode, re-encode, and (for a presentation) hand the decoded object to the verifier
+            cx.step(victim, "json_decode", opts, move || { let ok = api::from_json(suite, art, &fr2).is_ok(); if art == Art::Proof { let dm: Vec<Bytes> = h3.didx.iter().map(|&i| h3.msgs[i].clone()).collect(); let _ = api::proof_verify_json(suite, &h3.pk, &fr2, &h3.header, &h3.ph, &Some(dm), &Some(h3.didx.clone())); } ok }, move |cx, st| {
                 cx.cur_item = Some(item);
                 cx.eval(&[entry.as_bytes(), fr.as_bytes()], true);
                 settle_c08(cx, &entry, "json", format!("{desc} ({} chars)", fr.len()), measure, &st);
@@ -329,6 +340,15 @@ fn int_part(cx: &mut Cx, victim: NodeId, h: Arc<Honest>, which: usize) {
         4 => for c in int_corruptions(0, l).into_iter().chain([l + 1, l + 2]) {
             let h2 = h.clone();
             add(cx, "update_signature", format!("update_index={c}"), 0, Box::new(move || api::update(s, &h2.sk, &h2.sig, &h2.msgs[0], b"new", c, h2.msgs.len()).is_ok()));
+            // ... and the message count n (small values and the top of the range; the work is
+            // proportional to n, so the values in between are left to the size sweeps)
+            if c <= l + 2 || c >= usize::MAX - 1 {
+                let h2 = h.clone();
+                let idx = if c == usize::MAX - 1 { continue } else { 0 };
+                add(cx, "update_signature", format!("n={c}"), c.min(64) as u64, Box::new(move || api::update(s, &h2.sk, &h2.sig, &h2.msgs[0], b"new", idx, c).is_ok()));
+                let h2 = h.clone();
+                add(cx, "update_signature", format!("n={c},update_index=n-1"), c.min(64) as u64, Box::new(move || api::update(s, &h2.sk, &h2.sig, &h2.msgs[0], b"new", c.wrapping_sub(1), c).is_ok()));
+            }
         },
         _ => {
             // message / committed-message lists that do not match the signature (more, fewer, none)
